@@ -522,9 +522,13 @@ pub unsafe extern "C" fn signal(sig: c_int, handler: libc::sighandler_t) -> libc
 }
 
 unsafe fn snapshot() {
+    snapshot_as("C snapshot")
+}
+
+unsafe fn snapshot_as(label: &str) {
     lock();
     let mut w = ShWriter;
-    let _ = w.write_str("C snapshot");
+    let _ = w.write_str(label);
     for fd in 0..48 {
         let mut st: libc::stat = std::mem::zeroed();
         if libc::syscall(libc::SYS_fstat, fd as c_long, &mut st as *mut libc::stat) == 0 {
@@ -597,6 +601,9 @@ unsafe fn do_exec(path: *const c_char, argv: *const *const c_char, envp: *const 
             log_vec("envp", std::ptr::null());
         }
         snapshot();
+    } else {
+        // a later attempt (PATH search, fallbacks): the state the program would start in NOW
+        snapshot_as("C resnapshot");
     }
     if let Some(e) = fault(Kind::Exec) {
         set_errno(e);
